@@ -369,6 +369,45 @@ pub fn run_desc(desc: &StoreDesc, local: &mut Local) -> Check {
     if core.key_pair().public.to_bytes() != rec.public_key {
         return Err(Failure::new("js-storage-key-mismatch", format!("{what}: public key differs")));
     }
+    // the first operation after opening it, cut short at every storage operation: what a reader of the
+    // files sees must be the opened state or the state after that operation (never an entry that
+    // completes a dropped partial batch, never a stale entry coming back)
+    if synth.entries_written > 0 || desc.stale_tail || desc.torn_tail {
+        let jd = Disk::from_files(synth.files.clone());
+        jd.0.journaling.store(true, std::sync::atomic::Ordering::SeqCst);
+        if let Ok(Ok(c2)) = hc::open(&jd) {
+            let mut s2 = WSim::attach(&jd, c2, synth.expected.clone(), ObsPolicy::Full);
+            let op = if synth.expected.writeable { Op::Append(Blk { len: 2, fill: 0x46 }) } else { Op::Clear { a: 0, n: 0 } };
+            let before = synth.expected.clone();
+            if s2.apply(&op).is_ok() {
+                let after = s2.model.clone();
+                let journal = jd.journal();
+                let mut files = synth.files.clone();
+                // large stores: a bounded number of evenly spread crash points
+                let stride = if after.len() > 400 { (journal.len() / 12).max(1) } else { 1 };
+                for (k, jop) in journal.iter().enumerate() {
+                    crate::backend::apply(&mut files, jop);
+                    if k % stride != 0 && k + 1 != journal.len() {
+                        continue;
+                    }
+                    let d3 = Disk::from_files(files.clone());
+                    let mut c3 = match hc::open(&d3) {
+                        Ok(Ok(c)) => c,
+                        Ok(Err(e)) => return Err(Failure::new(format!("js-storage-crash-open-error:{}", err_kind(&e)), format!("{what}: after a crash {} storage operations into the first operation ({op:?}) the store does not open: {e}", k + 1))),
+                        Err(p) => return Err(panic_failure(&format!("{what}: reopening after a crash in the first operation"), &p)),
+                    };
+                    let obs = hc::observe(&mut c3, after.len() + 3, false).map_err(|p| panic_failure("observing", &p))?;
+                    if obs_vs_model(&obs, &before, false).is_some() && obs_vs_model(&obs, &after, false).is_some() {
+                        return Err(Failure::new(
+                            "js-storage-crash-state-mismatch",
+                            format!("{what}: after a crash {} storage operations into the first operation ({op:?}) the store shows neither the opened state nor the state after it: {} | {}", k + 1, obs_vs_model(&obs, &before, false).unwrap(), obs_vs_model(&obs, &after, false).unwrap()),
+                        ));
+                    }
+                    local.class("js_storage_first_op_crash_points");
+                }
+            }
+        }
+    }
     // keeps working: append (if writable) + clear + reopen
     let mut sim = WSim::attach(&disk, core, synth.expected.clone(), ObsPolicy::Full);
     for op in [Op::Append(Blk { len: 3, fill: 0x44 }), Op::Clear { a: 0x4000, n: 0 }, Op::Reopen, Op::Append(Blk { len: 1, fill: 0x45 }), Op::Reopen] {
